@@ -80,7 +80,8 @@ DROP = ['Defn', 'drop', 2, ['(', 2, ')'], None, 'newcommand']
 FT2 = ['Defn', 'ftwo', 1, ['See', ['foot', 'first note'], ' ', 1, ['foot', 'second note']], None,
        'newcommand']
 DEFS = [FOO, FOP, TW, DQ, ZERO, DROP, FT2]
-PREAMBLE = ['cat'] + [['defnode', d] for d in DEFS] + [['newtheorem'], ['glsdefs'], '\n']
+PREAMBLE = ['cat'] + [['defnode', d] for d in DEFS] + [['newtheorem'], ['newtheorem', 'rem', 'Remark', '*'],
+                                                       ['glsdefs'], '\n']
 
 # constructs without a text child
 INLINES = {
@@ -152,6 +153,7 @@ WRAPPERS = {
     'itemize': lambda c: ['items', 'itemize', [[None, c], [T('x'), T('Second')]]],
     'enumerate': lambda c: ['items', 'enumerate', [[None, T('First')], [None, c]]],
     'theorem': lambda c: ['theorem', ['cat', '\n', c, '\n']],
+    'theorem_star': lambda c: ['theorem', ['cat', '\n', c, '\n'], 'rem', 'Remark'],
     'theorem_opt': lambda c: ['theorem', ['cat', '\n', T('Body'), '\n'], 'thm', 'Theorem', c],
     'proof': lambda c: ['proof', ['cat', '\n', c, '\n']],
     'proof_opt': lambda c: ['proof', ['cat', '\n', T('Body'), '\n'], c],
@@ -229,7 +231,7 @@ def nestings(seed, limit=None, depth=1):
             combos.append((wn, 'in', inn))
         for wn2 in WRAPPERS:
             if wn in SIMPLE_CHILD and wn2 in ('itemize', 'enumerate',
-                                              'theorem', 'proof', 'unknown_env', 'section',
+                                              'theorem', 'theorem_star', 'proof', 'unknown_env', 'section',
                                               'subsection*', 'chapter_opt', 'theorem_opt',
                                               'proof_opt'):
                 continue
